@@ -114,6 +114,12 @@ def run(c):
     nbd = 80 if quick else 3000
     kind = _replay_kind(c) if c.replay else ""
     if c.replay:
+        import json as _json
+        if (_json.load(open(c.replay)).get("engine") or "").startswith("evfifo"):
+            out = c.harness("mbox", ["evfifo", "-replay", c.replay])
+            if out:
+                c.monitor("evfifo", out)
+            return
         if kind == "hooked":
             _hooked(c, "hooked", 1)
         elif kind == "stress":
@@ -131,6 +137,10 @@ def run(c):
         _hooked(c, "hooked", nhk)
         _stress(c, "stress", nst)
         _bounded(c, "bounded", nbd)
+        # large subscriber sets: one producer, 1..257 local subscribers, every subscriber sees every publication once, in order
+        out = c.harness("mbox", ["evfifo", "-n", "13" if quick else "260"], timeout=900)
+        if out:
+            c.monitor("evfifo", out)
         _remote(c, "remote", nrem)
         _rstress(c, "rstress", nrs)
     if c.broken and not c.violations and not c.replay:
